@@ -1141,6 +1141,7 @@ class Bench:
             return {'out': out[0]}
         res = out[1]
         named = []
+        sop_pre = sop.base if sop is not None else None
         if sop is not None:
             resid, sol = res
             self.check_result_object(resid, key, 'residual')
@@ -1154,7 +1155,8 @@ class Bench:
             W.add(ev['name'], res)
             named = [(ev['name'], res)]
         self.n_ok_state += 1
-        self.after_result(ev, named, key, builder=True, solvent_pre=sop.base if sop is not None else None)
+        kf = self.known.match_solution(self, ev, sop) if self.known is not None and sop is not None else None
+        self.after_result(ev, named, key, builder=True, solvent_pre=sop_pre, known=kf)
         return {'out': 'ok'}
 
     def check_conservation_builder(self, key, before, resid, sol, ev):
